@@ -4,7 +4,9 @@ import (
 	"bytes"
 	"context"
 	"fmt"
+	"os"
 	"strings"
+	"sync"
 	"time"
 
 	"github.com/superfly/litefs"
@@ -18,7 +20,7 @@ func init() {
 		Rule:  "a real node (simulated lease service, so that it can be demoted and re-elected) under the seeded scheduler with concurrent actors: a PagerSim writer (rollback-journal or WAL programs: commits, rollbacks, multi-frame transactions, log restarts, mode switches), a WAL checkpointer issuing PASSIVE/FULL/RESTART/TRUNCATE checkpoints, demotions (LiteFS's own checkpoint on role change), and an exporter that keeps calling DB.Export, DB.WriteSnapshotTo and GET /export into a writer that yields to the scheduler on every Write (a slow peer). Yield points: every OS call, every FUSE operation of the simulated SQLite, every change of state of the database's twelve locks (verif hook on RWMutex.OnLockStateChange) and every write of the export stream, so that a commit or a checkpoint can fall between any two lock acquisitions and any two pages of the snapshot. Oracle: every export / snapshot that completes without an error is compared byte for byte (page for page after decoding) with the image registered for exactly the position it reports; a snapshot's trailer checksum must equal that position's checksum and the from-scratch checksum of its pages. A second configuration adds a real replica that needs snapshots from the primary while it writes. evaluations = completed exports + snapshots; distinct = distinct (mode, kind, commits that happened during the export, checkpoint during the export) tuples; non-trivial = run in which at least one export completed while a commit or checkpoint happened between its first and last byte",
 		Run:   runC10,
 		NonTrivial: func(r *Run) bool {
-			return r.Stats["c10.checked.overlapped"] > 0
+			return r.Stats["c10.checked.overlapped"] > 0 || (r.Stats["c10.drop-export.checked"] > 0 && r.Stats["c10.drop"] > 0)
 		},
 		Assumptions: []string{"one writer transaction at a time (plus checkpointer and exporter); the exporter's reference is the image store fed by the simulated SQLite side"},
 		Real:        []string{"DB.Export, DB.WriteSnapshotTo, http /export, lock acquisition order, CommitWAL/CommitJournal, WAL restart handling, CheckpointNoLock, state-change recovery"},
@@ -78,6 +80,10 @@ func installLockSeam(r *Run, n *Node, db *litefs.DB, st *c10stall) {
 
 func runC10(r *Run) {
 	t := r.Tape
+	if pick := t.Chance(1, 8); (pick && os.Getenv("SIM_C10_SCENARIO") != "0") || os.Getenv("SIM_C10_SCENARIO") == "1" { // (developer override)
+		c10ExportAcrossDrop(r)
+		return
+	}
 	withReplica := t.Chance(1, 4)
 	nn := 1
 	if withReplica {
@@ -341,4 +347,148 @@ func minInt(a, b int) int {
 		return a
 	}
 	return b
+}
+
+// c10ExportAcrossDrop: exports of a database that an application drops and
+// creates again under the same name while they run. The exporter and the
+// application are tasks of the seeded scheduler (every OS call, FUSE operation
+// and lock transition is a scheduling point), so the unlink, the re-creation and
+// the first commits of the new database can fall between any two steps of an
+// export. Oracle: an export that completes without an error is, byte for byte,
+// the image committed at the position it reports.
+func c10ExportAcrossDrop(r *Run) {
+	t := r.Tape
+	n := newStaticPrimary(r, false, nil)
+	if n == nil {
+		return
+	}
+	h := &hist{r: r, n: n, name: "db"}
+	h.pageSize = []uint32{512, 1024, 4096}[t.Next(3)]
+	h.jmode = []string{ModeDelete, ModeTruncate, ModePersist}[t.Next(3)]
+	h.maxPages = 8
+	r.Cfg["scenario"], r.Cfg["page_size"], r.Cfg["jmode"] = "export-across-drop", h.pageSize, h.jmode
+	if !h.openConns(1) {
+		return
+	}
+	var mu sync.Mutex
+	ims := map[ltx.Pos]*Image{}
+	note := func() {
+		if d := h.db(); d != nil && d.Pos().TXID > 0 && h.ref != nil {
+			mu.Lock()
+			ims[d.Pos()] = h.ref
+			mu.Unlock()
+		}
+	}
+	for i := 0; i < 4 && h.ref.N() < 3; i++ {
+		h.commit(t)
+		note()
+	}
+	if r.Failed() || h.ref.N() == 0 {
+		return
+	}
+	db := h.db()
+	s := r.NewSched()
+	installLockSeam(r, n, db, nil)
+	s.Stick = t.Range(20, 90)
+	s.MaxTick = 2 * time.Millisecond
+	var wg sync.WaitGroup
+	// the application: commits, now and then drops the database and creates it again
+	steps := t.Range(4, 12)
+	wg.Add(1)
+	s.Go("app", func() {
+		defer wg.Done()
+		for i := 0; i < steps && !s.stopping.Load() && !r.Failed(); i++ {
+			s.Yield(0, "op", "app")
+			if t.Chance(1, 3) && h.ref.N() > 0 {
+				h.closeConns()
+				if e := n.K.Unlink(h.name); e != 0 {
+					r.Count("c10.drop.refused")
+					if !h.openConns(1) {
+						return
+					}
+					continue
+				}
+				r.Count("c10.drop")
+				h.ref, h.wal = nil, false
+				if !h.openConns(1) {
+					return
+				}
+				// the new database is not larger than the old one was
+				saved := h.maxPages
+				h.maxPages = 3
+				h.commit(t)
+				h.maxPages = saved
+				note()
+				continue
+			}
+			h.commit(t)
+			note()
+		}
+	})
+	exports := t.Range(3, 10)
+	wg.Add(1)
+	s.Go("exporter", func() {
+		defer wg.Done()
+		for i := 0; i < exports && !s.stopping.Load() && !r.Failed(); i++ {
+			s.Yield(0, "op", "export")
+			var buf bytes.Buffer
+			ctx, cancel := context.WithTimeout(context.Background(), 5*time.Second)
+			pos, err := db.Export(ctx, &buf)
+			cancel()
+			if err != nil {
+				r.Count("c10.drop-export.error")
+				continue
+			}
+			mu.Lock()
+			want := ims[pos]
+			mu.Unlock()
+			if want == nil {
+				// (the writer registers its image right after its commit; an export
+				// can report that position a moment earlier)
+				r.Count("c10.drop-export.unregistered")
+				continue
+			}
+			if !bytes.Equal(buf.Bytes(), want.Bytes()) {
+				got := &Image{PageSize: h.pageSize}
+				b := buf.Bytes()
+				for o := 0; o+int(h.pageSize) <= len(b); o += int(h.pageSize) {
+					got.Pages = append(got.Pages, b[o:o+int(h.pageSize)])
+				}
+				r.Failf("c10.mixture", "DB.Export reports position %s (%d bytes) while the database is dropped and created again under it; what it returned is not the image committed at that position: %s", pos, buf.Len(), DiffImages(got, want))
+				return
+			}
+			r.Count("c10.checked")
+			r.Count("c10.drop-export.checked")
+		}
+	})
+	done := make(chan struct{})
+	go func() { wg.Wait(); close(done) }()
+	finished := func() bool {
+		select {
+		case <-done:
+			return true
+		default:
+			return false
+		}
+	}
+	for st := 0; st < 12000 && !r.Failed(); st++ {
+		s.Settle()
+		if finished() {
+			break
+		}
+		if !s.StepOnce(nil, true) {
+			time.Sleep(time.Millisecond)
+		}
+	}
+	s.Stop()
+	for i := 0; i < 10000 && !finished(); i++ {
+		time.Sleep(time.Millisecond)
+		s.Settle()
+	}
+	if !r.Failed() && !finished() {
+		r.Inconclusive("c10 export across drop: tasks did not finish")
+		return
+	}
+	h.closeConns()
+	r.State("drop/%s/%d", h.jmode, min(int(r.Stats["c10.drop"]), 3))
 }
